@@ -607,6 +607,15 @@ func cmdCampaign(args []string) {
 			Valuate(c, r, r.Intn(100) < *valuedPct)
 		}
 	}
+	// some grammars rely on the default start symbol: no %start line, the start nonterminal is called "start"
+	if *caseFile == "" {
+		for i, cs := range cases {
+			if i%6 == 4 && cs.Family != "probe" && !cs.isNT("start") && !cs.isTerm("start") {
+				renameSym(cs, cs.Start, "start")
+				cs.NoStart = true
+			}
+		}
+	}
 	// keep only cases yaccgo accepts (the campaign is about generated parsers)
 	var kept []*Case
 	var keptObs []*Obs
